@@ -131,6 +131,13 @@ SPEC = Spec(
          "map and on maps nested in it, bytes append, slice RemoveIf/EnsureCapacity/CopyTo/MoveAndAppendTo, element CopyTo, Map.CopyTo and "
          "Value.CopyTo between elements, read-only); every capacity at every level compared. ptrslice-ptrace/-pmetric/-pprofile: the ptrslice "
          "differential on SpanSlice, NumberDataPointSlice, ProfilesSlice. "
+         "allslices / allslices-pprofile (reflection, model c07-ptrslice): the ptrslice programs (no read-only) over EVERY generated element "
+         "slice (29 types, the case index selects the type; element scalar and capacity read by reflection). allprims (reflection, model "
+         "c07-prim): every primitive slice (7 types). allmsgs / allmsgs-pprofile (reflection, Go oracles): for every generated message struct, "
+         "pcommon.TraceState and the four payload types: random fill through every public mutator, CopyTo into an arbitrarily pre-filled "
+         "destination (equal, source unchanged, independence both ways), MoveTo (destination = source, source = New(), independence both "
+         "ways), and for payloads an EXHAUSTIVE read-only sweep: every mutator at every position reachable through the accessors must panic, "
+         "the dump must not change, all readers keep working. "
          "prim (exact differential + Lean oracle): random programs over 2-4 pcommon.UInt64Slice (Append, SetAt, EnsureCapacity, FromRaw, "
          "CopyTo, MoveTo, read-only); non-trivial = a copy into a destination with spare capacity. "
          "tree (plain-Go reference model, no Lean model): 5-45 random public ops at random positions of 2-3 randomly filled plog.Logs "
@@ -153,6 +160,11 @@ SPEC = Spec(
         "record embedding: a generated message element owning containers (pointer-slice element or inline value-slice element) is a "
         "fixed-arity array container of its fields in the nested model; justified by reading the generated CopyTo/RemoveIf/MoveAndAppendTo "
         "and checked by exact differential (elem-plog, elem-pmetric), not proved in Lean; the driver expands AppendEmpty (appendrec)",
+        "translator translators/cmd/pdataslices (go/ast + go/printer): fails unless every function of every generated_*slice.go (29 element "
+        "slices, 7 primitive slices, 7 internal wrappers) is textually the template instance of the reference type the differentials run; "
+        "the reflection harnesses allslices / allprims additionally RUN every one of them through the Lean models, and Spec.post fails the "
+        "run if a listed slice / primitive slice / message struct was not exercised",
+        "the census rule is syntactic: writes through a local alias of orig are seen only if the method name matches the mutator pattern",
         "hand-written model of primitive slices (copyX = append(dst[:0], src...)), tied by exact differential on pcommon.UInt64Slice",
         "translator translators/cmd/pdatamsg (go/ast): reads the statement shapes of every generated message CopyTo/MoveTo (four known "
         "shapes, else failure), the setters/wrapper getters of the struct, and counts the optional/one-of descriptions in the generator tables",
@@ -166,6 +178,17 @@ SPEC = Spec(
     ],
     assumptions=[
         "single goroutine",
+        "one handle = one top-level container; a second wrapper of the same container, or an element handle kept across RemoveIf / Sort / a "
+        "growing AppendEmpty and used afterwards, is outside the programs considered",
+        "the read-only theorems are definitional (every model step checks the flag of the root NAMED BY AN INPUT of the op first); that the "
+        "code's accessors hand the parent's state to every child wrapper and that every mutator asserts the right state first is carried by "
+        "the regenerated census (syntactic) and by the exhaustive read-only sweep of the allmsgs harnesses, not by a Lean model of states",
+        "nested model: programs containing Slice.MoveAndAppendTo or nested Value.MoveTo/Map.MoveTo are not covered by "
+        "C07_nest_separation_all / C07_nest_frame_all (header-level theorem + exact differential only); for nested targets the result of "
+        "non-copy operations is stated per operation (C07_nest_*_result), there is no single pure program semantics",
+        "message structs (part E): nested fields are opaque and independence is not expressible in the message model; message-level copy / "
+        "move / independence for all 38 structs + TraceState rests on the reflection harnesses (allmsgs) and the regenerated statement shapes",
+        "from-raw with nested raw input (Value/Map/Slice.FromRaw) and as-raw: Go oracles only (witness 7, tree, allmsgs fill)",
         "copy-to / move-to / move-and-append-to are between distinct values (neither contains the other)",
         "programs reach sub-values from named roots at the time of the call (no handle to an element is kept across a removal of that element)",
     ],
